@@ -37,6 +37,7 @@ type histParams struct {
 	OtherMW     bool   // right after the spawn a second actor is spawned with a chain of its own (same length, other middlewares)
 	ChildEvery  bool   // with Child: EVERY incarnation spawns the (fixed-id) child in Started - after a restart that is a duplicate, the child of the first incarnation lives on
 	StopPanics  bool   // the receiver panics (once) while handling Stopped
+	StopPanicsAlways bool // with StopPanics: in every Stopped handler, not only the first
 	iCounts     bool   // reading of the reference: an InternalError panic consumes restart budget like any other
 	LC          string // lifecycle handlers that panic once: comma separated "<incarnation><I|S>", e.g. "2S" = Started of incarnation 2
 }
@@ -58,6 +59,9 @@ func (hp histParams) String() string {
 	lc := ""
 	if hp.LC != "" {
 		lc = "lc" + hp.LC
+	}
+	if hp.StopPanicsAlways {
+		lc += "always"
 	}
 	if hp.StopPanics {
 		lc += "stoppanics"
@@ -103,6 +107,7 @@ type histRun struct {
 	issued   bool
 	lcDone   map[string]bool
 	stopPaniced bool
+	mode2From int
 	stopInStopDone bool
 	ctxObs   []string // what was wrong at the moment a stop context was observed done
 }
@@ -184,6 +189,20 @@ func (h *histRun) behave(k *Kit, c *actor.Context, inc int) {
 				h.issue(i, c.Engine())
 			}
 		}
+		if h.hp.Mode == 2 && !h.issued {
+			// mode 2: everything up to and including the first failing message is sent from Started; the rest
+			// is sent by the failing Receive itself, right before it panics: it sits in the ring BEHIND the
+			// batch that is being processed (and not in the restart buffer)
+			h.issued = true
+			h.mode2From = len(h.hp.Hist)
+			for i := range h.hp.Hist {
+				h.issue(i, c.Engine())
+				if strings.ContainsRune("xXi", rune(h.hp.Hist[i])) {
+					h.mode2From = i + 1
+					break
+				}
+			}
+		}
 	case actor.Stopped:
 		if h.hp.SlowStop {
 			vsched.Yield()
@@ -213,11 +232,18 @@ func (h *histRun) behave(k *Kit, c *actor.Context, inc int) {
 			})
 			vsched.Recv(back)
 		}
-		if h.hp.StopPanics && !h.stopPaniced {
+		if h.hp.StopPanics && (!h.stopPaniced || h.hp.StopPanicsAlways) {
 			h.stopPaniced = true
 			panic("in the Stopped handler")
 		}
 	case int:
+		if h.hp.Mode == 2 && m >= 0 && m+1 == h.mode2From && h.mode2From < len(h.hp.Hist) {
+			from := h.mode2From
+			h.mode2From = len(h.hp.Hist)
+			for i := from; i < len(h.hp.Hist); i++ {
+				h.issue(i, c.Engine())
+			}
+		}
 		if m >= 0 && m < len(h.hp.Hist) {
 			switch h.hp.Hist[m] {
 			case 'x':
@@ -855,10 +881,18 @@ func init() {
 		}{{0, "X"}, {0, "mX"}, {0, "Xm"}, {1, "xX"}, {1, "XmX"}} {
 			v6 = append(v6, histParams{Hist: hc.h, MaxRestarts: hc.r, Mode: mode, Late: true, Bystander: true, StopPanics: true})
 		}
+		// every Stopped handler panics (crash-path and final), the budget runs out while the restart buffer is
+		// replayed, and something is still queued behind: terminated is terminated
+		for _, hc := range []struct {
+			r int
+			h string
+		}{{1, "XX"}, {1, "XXm"}, {1, "xXm"}, {2, "XXXm"}, {0, "Xmm"}} {
+			v6 = append(v6, histParams{Hist: hc.h, MaxRestarts: hc.r, Mode: mode, Late: true, Bystander: true, StopPanics: true, StopPanicsAlways: true})
+		}
 		Register(&Job{Name: fmt.Sprintf("C05/hist/stopped-handler-panics-after-crash-mode%d", mode), Prop: "C05", Family: "regression:D26 (fixed)", Bound: 1, BoundT: 2, Budget: 40, BudgetT: 600,
 			Desc: fmt.Sprintf("%d histories in which the receiver that just crashed (on a message, in Started, in Initialized) panics once more while it is told Stopped: contained, the restart goes ahead, the queued tail is delivered once and in order, the bystander is undisturbed", len(v5)),
 			Make: func() vsched.Instance { return histInstance(v5, histOracle) }})
-		Register(&Job{Name: fmt.Sprintf("C06/hist/stopped-handler-panics-at-exhaustion-mode%d", mode), Prop: "C06", Family: "regression:D26 (fixed)", Bound: 1, BoundT: 2, Budget: 40, BudgetT: 600,
+		Register(&Job{Name: fmt.Sprintf("C06/hist/stopped-handler-panics-at-exhaustion-mode%d", mode), Prop: "C06", Family: "regression:D26 (fixed)", Bound: 1, BoundT: 2, Budget: 40, BudgetT: 600, Shards: 5,
 			Desc: fmt.Sprintf("%d histories in which the budget-exhausting panic is followed by a panic of the same receiver in its final Stopped handler (or an earlier crash-path Stopped panics): contained, ActorMaxRestartsExceededEvent once, unregistered, later sends dead-letter, the bystander is undisturbed", len(v6)),
 			Make: func() vsched.Instance { return histInstance(v6, histOracle) }})
 	}
@@ -933,6 +967,27 @@ func init() {
 		Register(&Job{Name: fmt.Sprintf("C06/hist/exhaust-long-mode%d", mode), Prop: "C06", Tier: "thorough", Bound: 1, BoundT: 2, Budget: 40, BudgetT: 900,
 			Desc: fmt.Sprintf("%d histories over {m,X} with exactly MaxRestarts+1 crashes (MaxRestarts 0..2, restart delay 0 and >0), late probe send, bystander, mode %d", len(vt), mode),
 			Make: func() vsched.Instance { return histInstance(vt, histOracle) }})
+	}
+	// C05/C06 mode 2: the tail of the history is sent by the failing Receive itself (it is in the ring behind the
+	// current batch, not in the restart buffer): delivered to the next incarnation in order - or, when the actor
+	// is terminated, to nobody.
+	{
+		var v5, v6 []histParams
+		for _, hs := range []string{"xm", "xmm", "mxm", "xxm", "xmx"} {
+			v5 = append(v5, histParams{Hist: hs, MaxRestarts: 3, Mode: 2, Late: true, Bystander: true}, histParams{Hist: hs, MaxRestarts: 3, Mode: 2, Late: true, Delay: true})
+		}
+		for _, hc := range []struct {
+			r int
+			h string
+		}{{0, "Xm"}, {0, "Xmm"}, {0, "mXm"}, {1, "XXm"}, {1, "xXm"}, {1, "XmXm"}} {
+			v6 = append(v6, histParams{Hist: hc.h, MaxRestarts: hc.r, Mode: 2, Late: true, Bystander: true}, histParams{Hist: hc.h, MaxRestarts: hc.r, Mode: 2, Late: true, Delay: true})
+		}
+		Register(&Job{Name: "C05/hist/tail-sent-by-the-failing-receive", Prop: "C05", Bound: 1, BoundT: 2, Budget: 40, BudgetT: 600, Shards: 5,
+			Desc: fmt.Sprintf("%d variants: the messages behind the failing one are sent by the failing Receive itself right before it panics (they sit in the ring behind the batch being processed, not in the restart buffer), restart delay 0 and >0: delivered once, in order, to the next incarnation", len(v5)),
+			Make: func() vsched.Instance { return histInstance(v5, histOracle) }})
+		Register(&Job{Name: "C06/hist/tail-sent-by-the-failing-receive", Prop: "C06", Bound: 1, BoundT: 2, Budget: 40, BudgetT: 600, Shards: 6,
+			Desc: fmt.Sprintf("%d variants: messages sent by the Receive whose panic exhausts the budget, right before it panics (in the ring behind the batch): the terminated actor handles none of them, later sends dead-letter", len(v6)),
+			Make: func() vsched.Instance { return histInstance(v6, histOracle) }})
 	}
 	// C07: one stop request in a stream of messages (clean), two requests (trigger D3).
 	for _, mode := range []int{0, 1} {
